@@ -107,6 +107,15 @@ def gen(rng, tier):
         c = mk("infer", "nd", shape, rng.choice([a, a - n]), rng.choice([b, b - n]))
         c["pre"] = rng.choice({2: ["conv1d", "scale"], 3: ["conv2d", "sumpool", "avgpool", "conv2d", "sumpool"], 4: ["scale"]}[n])
         cases.append(c)
+    # constructor called with an output_type already filled in (a node derived from another Flatten, e.g. by
+    # dataclasses.replace(node, start_dim=...), carries the old output type along): it must be recomputed
+    for _ in range(30 if tier == "quick" else 300):
+        n = rng.choice([2, 3, 3, 4])
+        shape = [rng.choice(lens) for _ in range(n)]
+        a = rng.randrange(n); b = rng.randrange(a, n)
+        c = mk("construct", rng.choice(["nd", "list", "tuple"]), shape, rng.choice([a, a - n]), rng.choice([b, b - n]))
+        c["stale"] = rng.choice(["full", "same"])
+        cases.append(c)
     # malformed stream
     cases.append(mk("util", "list", [], 0, -1))
     cases.append(mk("construct", "nd", [2, 3], 5, 7))
@@ -115,8 +124,11 @@ def gen(rng, tier):
 
 def recipe_for(c):
     if c["kind"] == "construct":
-        return {"k": "Flatten", "args": {"input_type": shape_form(c["shape"], c["form"]),
-                                         "start_dim": c["s"], "end_dim": c["e"]}}
+        args = {"input_type": shape_form(c["shape"], c["form"]), "start_dim": c["s"], "end_dim": c["e"]}
+        if c.get("stale"):
+            total = int(np.prod(c["shape"]))
+            args["output_type"] = {"output": np.array([total] if c["stale"] == "full" else list(c["shape"]))}
+        return {"k": "Flatten", "args": args}
     nodes = {"in": {"k": "Input", "args": {"input_type": shape_form(c["shape"], c["form"] if c["form"].startswith("nd") else "nd")}}}
     edges = [("in", "fl"), ("fl", "out")]
     pre = c.get("pre")
@@ -147,7 +159,7 @@ def run(c):
     a = s + n if s < 0 else s
     b = e + n if e < 0 else e
     nontriv = exp is not None and n >= 2 and (b > a or s < 0 or e < 0)
-    sig = (c["kind"], c["form"], tuple(shape), s, e, c.get("pre"))
+    sig = (c["kind"], c["form"], tuple(shape), s, e, c.get("pre"), c.get("stale"))
     fail = None
     if c["kind"] == "util":
         try:
@@ -172,7 +184,7 @@ def run(c):
     r = recipe_for(c)
     if c["kind"] == "construct":
         res = try_build(r)
-        coq = f"(FlatG {cbuild(r, res)})"
+        coq = f"(FlatG {cbuild(r, res)})" if not c.get("stale") else None
         if exp is not None:
             if res[0] != "ok":
                 fail = f"Flatten({shape}, {s}, {e}) [{c['form']}] raised {res[1]}; expected output {exp}"
